@@ -52,22 +52,45 @@ class BlankAuto(Auto):
         self.n_adv = self.n_skip_adv = 0
 
     def initial(self):
-        return (False, False)
+        return (False, False, None)
 
     def event(self, state, ev, where):
-        nf, pending = state
+        nf, pending, nb = state
+        if ev[0] == "narrow" and ev[1] == "look" and len(ev) > 3 and "@" in ev[3]:
+            # a look-ahead answer narrowed to "not a space or tab" (or the end): advancing exactly to that offset
+            # leaves the cursor in blank-normal form
+            names = dict(ev[2][2])
+            p = names.get("Some")
+            mask = p[1] if (p is not None and p[0] == "byte") else (0 if "Some" not in names else A.ALL)
+            k = int(ev[3].split("@")[1])
+            key = ("var", where[1].id, k - 1000) if k >= 1000 else ("num", k)
+            if not (mask & ((1 << 32) | (1 << 9))):
+                return (nf, pending, key)
+            return (nf, pending, None if nb == key else nb)
         if ev[0] == "prim":
             if ev[1] == "tabs_or_spaces":
-                return (nf, True)
+                return (nf, True, nb)
             if ev[1] == "advance":
                 self.n_adv += 1
                 amount = ev[2][1] if len(ev[2]) > 1 else TOP
                 if amount == SKIP and pending:
                     self.n_skip_adv += 1
-                    return (True, False)
+                    return (True, False, None)
                 if amount == ("i", 0):
-                    return (nf, False)
-                return (False, False)
+                    return (nf, False, nb)
+                if nb is not None:
+                    fn = where[1]
+                    t = fn.term(where[2])
+                    e = sym(fn).operand(t["args"][1]) if len(t.get("args", [])) > 1 else None
+                    hit = False
+                    if nb[0] == "num" and amount == ("i", nb[1]):
+                        hit = True
+                    if nb[0] == "var" and nb[1] == fn.id and e == ("l", nb[2]):
+                        hit = True
+                    if hit:
+                        self.n_skip_adv += 1
+                        return (True, False, None)
+                return (False, False, None)
             return state
         if ev[0] == "call" and ev[1].startswith(TOK) and ev[1][len(TOK):] in CURSOR_DECIDING:
             name = ev[1][len(TOK):]
@@ -159,15 +182,48 @@ def run_r2(ctx, rule):
         rule.check(tr in got, "is_end_of_word/" + tr[1], "a word ends exactly before space, tab, CR, LF or the end of input: %s --%s--> %s" % tr, f.loc())
     for tr in sorted(got - want, key=str):
         rule.bad("is_end_of_word/extra/" + str(tr[1]), "undocumented behaviour of is_end_of_word: %s --%s--> %s" % tr, f.loc())
-    # every word-like token consults it before consuming (word, uint, int)
+    # every word-like token (word, uint, int) consumes only after a look-ahead answered "space, tab, CR, LF or end"
+    # for a byte behind the token -- through is_end_of_word or a test of its own -- on every path (typestate)
+    EOW = (1 << 32) | (1 << 9) | (1 << 13) | (1 << 10)
+
+    class WordEnd(Auto):
+        name = "end-of-word-seen"
+
+        def __init__(self):
+            self.bad = None
+
+        def initial(self):
+            return False
+
+        def event(self, state, ev, where):
+            if ev[0] == "narrow" and ev[1] == "look":
+                names = dict(ev[2][2])
+                p = names.get("Some")
+                if "Some" not in names:
+                    return True  # end of input
+                if p is not None and p[0] == "byte" and p[1] and not (p[1] & ~EOW):
+                    return True
+                return state
+            if ev[0] == "prim" and ev[1] == "advance":
+                if not state and self.bad is None:
+                    self.bad = where[1].loc(where[2])
+                return False
+            return state
+
     for name in ("word", "uint", "int"):
-        for i, g in facts.fns.items():
-            if norm(i) != TOK + name:
-                continue
-            c = cfg(g)
-            eow = [bb for bb, t in g.calls() if norm(util.cname(t)) == TOK + "is_end_of_word"]
-            adv = [bb for bb, t in g.calls() if norm(util.cname(t)).startswith(DR + "advance")]
-            rule.check(bool(eow) and bool(adv) and all(any(c.dominates(e, a) for e in eow) for a in adv), "%s/end-of-word-before-advance" % name, "token::%s consumes only after is_end_of_word() accepted the byte behind the token" % name, g.loc())
+        ids = [i for i in facts.fns if norm(i) == TOK + name]
+        if not ids:
+            rule.bad("%s/anchor" % name, "anchor missing: token::%s" % name, kind="anchor-missing")
+            continue
+        g = facts.fns[ids[0]]
+        auto = WordEnd()
+        eng = Engine(facts, auto)
+        try:
+            eng.summary(scan.root_key(facts, g.id), auto.initial(), tuple(TOP for _ in range(g.argc)))
+        except (A.Recursion, A.Imprecise) as e:
+            rule.bad("%s/engine" % name, "analysis failed: %r" % e, g.loc(), kind="unmodelled-idiom")
+            continue
+        rule.check(auto.bad is None, "%s/end-of-word-before-advance" % name, "token::%s consumes only after a look-ahead found space, tab, CR, LF or the end behind the token" % name, auto.bad or g.loc())
 
 
 # ---- R3 -----------------------------------------------------------------------------------------
@@ -353,7 +409,7 @@ def run(ctx):
         fn = facts.fn(fid)
         for o in (0, 1):
             got, eng = scan.behaviour(facts, scan.root_key(facts, fid), (TOP, ("i", o)))
-            c16.compare(r6, h, "offset=%d" % o, got, spec(o), fn)
+            c16.compare(r6, h, "offset=%d" % o, got, spec(o), fn, [a(o) for a in getattr(spec, "alternatives", [])])
         bad = []
         for k in cg.reach_above(facts, [scan.root_key(facts, fid)], set(c16.LOOKS)):
             if norm(facts.inst[k]["def"]) in c16.LOOKS:
